@@ -329,7 +329,7 @@ class Sandbox:
         elif how == 'missing_key' and doc is not None:
             del doc['rootOperations']
             data = gzip.compress(json.dumps(doc).encode())
-        elif how == 'bad_field' and doc is not None:
+        elif how == 'bad_field' and isinstance(doc, dict):
             # valid gzip, valid JSON, right software / version / name - but one top-level entry has the wrong shape
             keys = [k for k in sorted(doc) if k not in ('software', 'cacheFileVersion', 'buildName')]
             bads = [None, 0, 'x', [['x']], {'a': 1}, [1], True]
@@ -338,21 +338,25 @@ class Sandbox:
             data = gzip.compress(json.dumps(doc).encode())
             # the library documents best-effort parsing: such a file may be refused or may be taken for a cache
             self.dubious = getattr(self, 'dubious', set()) | {hashlib.sha256(data).hexdigest()}
-        elif how == 'bad_entry' and doc is not None:
+        elif how == 'bad_entry' and isinstance(doc, dict):
             # the right shape except for one entry that cannot be what it stands for: a created directory whose name
             # no os call accepts (NUL, lone surrogate), versions that are not an object, arguments of a recorded
             # query that are not a list (D38) - such a file has to be refused, it is not marked dubious
             def first_simple(ops):
-                for o in ops:
+                # (an earlier corruption of the same file may have left anything here)
+                for o in (ops if isinstance(ops, list) else []):
                     if isinstance(o, dict):
                         if o.get('type') not in ('build_file', 'subbuild'):
                             return o
-                        r = first_simple(o.get('suboperations') or [])
+                        r = first_simple(o.get('suboperations'))
                         if r is not None:
                             return r
                 return None
             v = arg % 6
-            so = first_simple(doc.get('rootOperations') or [])
+            so = first_simple(doc.get('rootOperations'))
+            for key in ('createdDirs',):
+                if not isinstance(doc.get(key), list):
+                    doc[key] = []
             if v == 0:
                 doc['createdDirs'] = list(doc.get('createdDirs') or []) + [os.path.join(self.root, 'a\x00b')]
             elif v == 1:
